@@ -249,6 +249,11 @@ impl Prop for P {
             vec![e("div", vec![e("div", vec![e("table", vec![e("tr", vec![e("td", vec![t("qa")])])])])])],
             vec![e("p", vec![t("qz")]), e("div", vec![e("div", vec![e("div", vec![e("h3", vec![t("qa")])])])]), e("p", vec![t("qy")])],
             vec![e("div", vec![e("blockquote", vec![e("ol", vec![e("li", vec![e("p", vec![t("qa")])])])])])],
+            // inline elements outside the grammar: superscripts (digits-only ones are rendered with superscript digits),
+            // ins / i / s / unknown elements
+            vec![e("p", vec![t("qa"), e("sup", vec![t("12")]), t(" qb"), e("sup", vec![t("qc")]), t(" "), e("i", vec![t("qd")]), e("ins", vec![t("qe")]), t(" "), e("s", vec![t("qf")]), e("u", vec![t("qg")])])],
+            vec![e("ul", vec![e("li", vec![t("qa qb"), e("sup", vec![t("7")])]), e("li", vec![e("sup", vec![e("em", vec![t("qc")]), t("3")]), t("qd")])])],
+            vec![e("blockquote", vec![e("p", vec![t("qa qb qc"), e("sup", vec![ea("a", &[("href", "/1")], vec![t("qd")])]), t(" qe")])])],
         ] {
             docs.push(extra);
         }
